@@ -92,7 +92,8 @@ def wrap_kind(d, rec, why):
         if m and (int(m.group(1)) * (-1 if ts[0] == "-" else 1) - raw) % (1 << min(32, d["bits"] if d["kind"] in "us" else 32)) == 0:
             return "exponent-ignored"            # only the digits before the '.' were used
         body = ts.lstrip("+-")
-        if re.match(r"^0[0-7]+$", body) and (int(body, 8) * (-1 if ts[0] == "-" else 1) - raw) % (1 << 32) == 0:
+        mo = re.match(r"^(0[0-7]+)(\.\d*)?([eE][+-]?\d+)?$", body)
+        if mo and (int(mo.group(1), 8) * (-1 if ts[0] == "-" else 1) - raw) % (1 << 32) == 0:
             return "leading-zero-octal"
         diff = Fraction(raw) - want
         if d["vals"] and raw < 0:
